@@ -14,11 +14,22 @@ code->spec : every real execution (replayed behaviours, directed schedules, seed
              schedule perturbation, with and without runtime/trace started) is recorded as ndjson and
              validated by TLC against the total contract monitor SpanEndContract.tla (Trace_SpanEnd.tla).
 thorough   : additionally the same scenarios under -race (auxiliary monitor for the data-race clause).
+impl-trace : Trace_SpanEndImpl.tla: a sample of the same recorded executions (replayed behaviours, directed
+             schedules, the first random scenarios) must also be explainable by the ACTIONS of SpanEnd.tla itself:
+             one line per verif point of End passed (confirmation lines), per natural gate passed (user code the
+             SDK calls: exact lines) and per Call/Ret/OnEnd; TLC infers the unlogged lock/check/apply/snapshot
+             steps, every invariant of SpanEnd.tla stays on.  A trace the contract accepts but SpanEnd.tla cannot
+             explain is MODEL DRIFT: counted, reported (evidence + NOTE), never a verdict.
 """
 import glob
 import json
 import os
+import random
 import re
+import time
+from concurrent.futures import ThreadPoolExecutor
+
+import vlib
 
 S = "SpanEnd"
 WINDOW = ["span.end.checked", "span.end.taskended", "span.end.marked"]
@@ -171,6 +182,191 @@ def directed(shape):
     out += [dict(d, name=d["name"] + "-recordonly", recordOnly=True) for d in out
             if d["name"].startswith(("held-after-mark", "mutators-before-end", "mutate-inside", "panic-format-while"))]
     return out
+
+
+ILISTS = ["enders", "panickers", "mutators", "shared", "usermut", "evmut", "zeromut", "children", "readers", "registrars",
+          "stoppers", "unregs", "waitfor"]
+
+
+def impl_validate(ctx, traces, consts, max_scen, max_groups, per_group, max_lines, timeout):
+    """Trace_SpanEndImpl.tla over a sample of the scenarios recorded with -impl.  Scenarios are grouped by the scalar
+    constants of SpanEnd.tla (one TLC start per group, reset between scenarios); the process names of a group are merged
+    into its first Cfg line.  Returns statistics; drift is evidence, never a verdict."""
+    scen, cfgs, icfgs, order = {}, {}, {}, []
+    for tf, label in traces:
+        cur = None
+        for ln in open(tf):
+            if '"impl":true' in ln and '"ev":"Cfg"' in ln:
+                r = json.loads(ln)
+                cur = (label, r["sc"])
+                scen[cur], cfgs[cur] = [], r
+                order.append(cur)
+            elif '"ev":"Cfg"' in ln:
+                cur = None
+            if cur is not None:
+                r = json.loads(ln)
+                if r["sc"] == cur[1]:      # (stragglers of an abandoned scenario carry another number)
+                    scen[cur].append((ln, r))
+                    if r["ev"] == "ICfg":
+                        icfgs[cur] = r
+    elig, why = [], {}
+    for k in order:
+        c, ic, last = cfgs[k], icfgs.get(k), scen[k][-1][1]
+        reason = None
+        if ic is None or last["ev"] != "EndScenario" or not last.get("quiescent"):
+            reason = "not-quiescent"
+        elif any(r["ev"] in ("Stuck", "Panic") for _, r in scen[k]):
+            reason = "stuck-or-panic"
+        elif ic["provs"] > 0:
+            reason = "provider-user-goroutine"      # Tracer/Register/Unregister of a foreign processor/ForceFlush: not in SpanEnd.tla
+        elif ic["unregs"] and c["nprocs"] == 0:
+            reason = "unregister-without-processor"
+        elif len(scen[k]) > max_lines:
+            reason = "too-long"
+        if reason:
+            why[reason] = why.get(reason, 0) + 1
+        else:
+            elig.append(k)
+    groups = {}
+    for k in elig:
+        c = cfgs[k]
+        # (WaitFor changes what a registrar of that name may do: part of the key; every other name set is merged)
+        key = (c["rt"], c["nprocs"], c["lim"], c["sampled"], c["zero"], c["withstart"], c["reentreg"], c["hooks"],
+               tuple(icfgs[k]["waitfor"]))
+        groups.setdefault(key, []).append(k)
+    # sample: groups chosen greedily so that together they cover as many features as possible (constants of the key,
+    # kinds of processes present, source), seeded tie-break; inside a group the directed schedules first, then a
+    # seeded sample of the rest
+    rnd = random.Random(ctx.seed * 7919 + len(elig))
+
+    def directed(k):
+        return k[0] == "scripts" and not re.match(r"(all|sim|uall|usim|udev|ro|prov|st|z0)-", cfgs[k].get("name", ""))
+
+    def features(g):
+        f = {"rt=%s" % g[0], "nprocs=%d" % g[1], "lim=%d" % min(g[2], 1), "sampled=%s" % g[3], "zero=%s" % g[4], "withstart=%s" % g[5],
+             "reentreg=%s" % g[6], "waitfor=%d" % len(g[8])}
+        for k in groups[g]:
+            f.add("src=" + ("directed" if directed(k) else k[0]))
+            f |= {x for x in ("panickers", "usermut", "evmut", "zeromut", "children", "readers", "registrars", "stoppers", "unregs")
+                  if icfgs[k][x]}
+        return f
+    feats = {g: features(g) for g in groups}
+    left = sorted(groups, key=lambda g: order.index(groups[g][0]))
+    rnd.shuffle(left)
+    gkeys, covered = [], set()
+    while left and len(gkeys) < max_groups:
+        g = max(left, key=lambda x: len(feats[x] - covered))     # (max keeps the first of equals: the shuffled order)
+        gkeys.append(g)
+        covered |= feats[g]
+        left.remove(g)
+    chosen = []
+    for g in gkeys:
+        d = [k for k in groups[g] if directed(k)]
+        o = [k for k in groups[g] if not directed(k)]
+        rnd.shuffle(d)
+        rnd.shuffle(o)
+        chosen.append((g, sorted((d + o)[:per_group], key=order.index)))
+    total = sum(len(ks) for _, ks in chosen)
+    while total > max_scen:          # trim the largest groups first
+        g, ks = max(chosen, key=lambda x: len(x[1]))
+        ks.pop()
+        total -= 1
+    stats = {"recorded": len(order), "eligible": len(elig), "ineligible": why, "groups_available": len(groups),
+             "groups": len(chosen), "scenarios": total, "features_covered": sorted(covered), "accepted": 0, "lines": 0, "states": 0, "tlc_starts": 0, "wall_s": 0.0,
+             "drift": [], "errors": [], "model_monitor_bad": [], "not_examined_after_drift": 0}
+
+    def one(gi, key, ks):
+        out = {"accepted": [], "drift": [], "errors": [], "lines": 0, "states": 0, "starts": 0, "bad": [], "skipped": 0}
+        rest = list(ks)
+        while rest:
+            if len(out["drift"]) >= 3:     # a tree on which file after file drifts: the point is made, keep the run short
+                out["skipped"] = len(rest)
+                break
+            u = {x: [] for x in ILISTS}
+            for k in rest:
+                for x in ILISTS:
+                    u[x] += [v for v in icfgs[k][x] if v not in u[x]]
+            u["registrars"].sort(key=lambda g: int(g[1:]))
+            f = os.path.join(ctx.work, "impl-%d.ndjson" % gi)
+            spans, n = [], 0
+            with open(f, "w") as w:
+                for k in rest:
+                    for i, (ln, r) in enumerate(scen[k]):
+                        if n == 0 and i == 0:
+                            ln = json.dumps(dict(r, **u)) + "\n"
+                        w.write(ln)
+                    spans.append((k, n + 1, n + len(scen[k])))
+                    n += len(scen[k])
+            r = ctx.tlc(S, "Trace_SpanEndImpl", "Trace_SpanEndImpl.cfg", workers=1, deque=True, timeout=timeout, heap="2g",
+                        defines=dict(consts, AHEAD="TRUE"), extra_files={"trace.ndjson": f}, name="impl-%d" % gi, must_pass=False,
+                        count=False)
+            out["starts"] += 1
+            out["states"] += r["distinct"]
+            acc = hwm = None
+            for pr in r["prints"]:
+                if isinstance(pr, str) and pr.startswith("ACCEPTED "):
+                    acc = int(pr.split()[1])
+                elif isinstance(pr, str) and pr.startswith("HWM "):
+                    hwm = int(pr.split()[1])
+                elif isinstance(pr, str) and pr.startswith("IMPLEND "):
+                    d = json.loads(pr[8:])
+                    if d["bad"]:
+                        out["bad"].append({"scenario": d["sc"], "bad": sorted(d["bad"])})
+            if acc == n:
+                out["accepted"] += [k for k, _, _ in spans]
+                out["lines"] += n
+                break
+            if r["timed_out"] or r["error"] or r["violated"] or hwm is None:
+                # an invariant of SpanEnd.tla broken on the way, a TLC error or a timeout: nothing of this file counts
+                out["errors"].append({"group": gi, "scenarios": len(rest), "first": "%s/%s" % rest[0],
+                                      "error": ("invariant " + r["violated"]) if r["violated"] else (r["error"] or "timeout"), "out": r["out"]})
+                break
+            # stuck: the scenario holding line `hwm` is the first one no explanation gets through
+            j = next((i for i, (_, a, b) in enumerate(spans) if a <= hwm <= b), len(spans) - 1)
+            k, a, b = spans[j]
+            out["accepted"] += [x for x, _, _ in spans[:j]]
+            out["lines"] += a - 1
+            at = hwm - a + 1
+            # once more alone and without the look-ahead (bounded; the first drift of a group only): the line whose own
+            # conditions fail
+            if not out["drift"]:
+                f1 = os.path.join(ctx.work, "impl-%d-drift.ndjson" % gi)
+                with open(f1, "w") as w:
+                    for i, (ln, r) in enumerate(scen[k]):
+                        w.write(json.dumps(dict(r, **{x: icfgs[k][x] for x in ILISTS})) + "\n" if i == 0 else ln)
+                r1 = ctx.tlc(S, "Trace_SpanEndImpl", "Trace_SpanEndImpl.cfg", workers=1, deque=True, timeout=90, heap="2g",
+                             defines=dict(consts, AHEAD="FALSE"), extra_files={"trace.ndjson": f1},
+                             name="impl-%d-drift" % gi, must_pass=False, count=False)
+                out["starts"] += 1
+                h1 = [int(pr.split()[1]) for pr in r1["prints"] if isinstance(pr, str) and pr.startswith("HWM ")]
+                if h1 and not (r1["timed_out"] or r1["error"] or r1["violated"]) and h1[0] <= len(scen[k]):
+                    at = h1[0]
+            ev = scen[k][min(at, len(scen[k])) - 1][1]
+            out["drift"].append({"scenario": "%s/%d" % k, "name": cfgs[k].get("name", ""), "line_in_scenario": at,
+                                 "first_offending_line": ev, "line_with_lookahead": hwm - a + 1,
+                                 "before": [x[1] for x in scen[k][max(0, at - 4):at - 1]],
+                                 "cfg": {x: cfgs[k][x] for x in ("rt", "nprocs", "lim", "sampled", "zero", "withstart")}})
+            rest = [x for x, _, _ in spans[j + 1:]]
+        return out
+
+    t0 = time.time()
+    with ThreadPoolExecutor(max_workers=4) as ex:
+        outs = list(ex.map(lambda a: one(a[0], a[1][0], a[1][1]), list(enumerate(chosen))))
+    stats["wall_s"] = round(time.time() - t0, 1)
+    for o in outs:
+        stats["accepted"] += len(o["accepted"])
+        stats["lines"] += o["lines"]
+        stats["states"] += o["states"]
+        stats["tlc_starts"] += o["starts"]
+        stats["drift"] += o["drift"]
+        stats["errors"] += o["errors"]
+        stats["model_monitor_bad"] += o["bad"]
+        stats["not_examined_after_drift"] += o["skipped"]
+    stats["drift_count"] = len(stats["drift"])
+    stats["drift"] = stats["drift"][:5]
+    stats["errors"] = stats["errors"][:3]
+    stats["model_monitor_bad"] = stats["model_monitor_bad"][:5]
+    return stats
 
 
 def run(ctx):
@@ -417,14 +613,16 @@ def run(ctx):
         return tf, res
 
     if scenarios:
-        tf, res = harness(binp, "scripts", "scripts", ["-in", sfile])
+        tf, res = harness(binp, "scripts", "scripts", ["-in", sfile, "-impl", "-1"])
         traces.append((tf, "scripts"))
         ctx.add_samples([{"behaviour_script": scenarios[0]["script"][:40]}])
     # ------------------------------------------------------------ code -> spec: random scenarios
     chunks = 6 if thorough else 1
     per = 4000 if thorough else 1500
+    impl_random = 400 if thorough else 60    # the first N random scenarios also record the implementation-level trace
     for i in range(chunks):
-        tf, res = harness(binp, "random", "random%d" % i, ["-n", str(per)], seed=ctx.seed * 1000 + i)
+        tf, res = harness(binp, "random", "random%d" % i, ["-n", str(per)] + (["-impl", str(impl_random)] if i == 0 else []),
+                          seed=ctx.seed * 1000 + i)
         traces.append((tf, "random"))
         if i == 0:
             ctx.add_samples(res["samples"][:1])
@@ -525,6 +723,31 @@ def run(ctx):
     ctx.extra["behaviours_with_other_outcome_than_model"] = ndrift
     ctx.traces_validated += executed
     ctx.evaluations += executed
+    # ------------------------------------------------------------ impl-trace: code -> spec, second level
+    # The same recorded executions against the ACTIONS of SpanEnd.tla (Trace_SpanEndImpl.tla).  Verdict rule: a trace
+    # the contract accepts but SpanEnd.tla cannot explain is model drift: evidence and a NOTE, never exit 1, and exit 2
+    # only if nothing of the sample could be explained at all.
+    consts = {"SHAPE": shape, "ALLOWKNOWN": "TRUE" if known_model else "FALSE", "MSHAPE": ms if ms != "unknown" else "locked",
+              "PSHAPE": ps if ps != "unknown" else "locked", "PRECHECK": "TRUE" if precheck else "FALSE", "UNREGSHAPE": unreg}
+    lim = dict(max_scen=3000, max_groups=1000, per_group=300, max_lines=600, timeout=900) if thorough else \
+        dict(max_scen=120, max_groups=6, per_group=25, max_lines=250, timeout=120)
+    iv = impl_validate(ctx, [(tf, label) for tf, label in traces if label in ("scripts", "random")], consts, **lim)
+    ctx.extra["impl_trace"] = {"scenarios": iv["scenarios"], "accepted": iv["accepted"], "drift": iv["drift"],
+                               "drift_count": iv["drift_count"], "stats": {k: v for k, v in iv.items() if k != "drift"}}
+    ctx.traces_validated += iv["accepted"]
+    for d in iv["drift"]:
+        vlib.log("NOTE: impl-trace model drift (evidence, not a verdict): scenario %s %s: SpanEnd.tla (shape %s) cannot explain line %d: %s"
+                 % (d["scenario"], d["name"], shape, d["line_in_scenario"],
+                    json.dumps({k: v for k, v in d["first_offending_line"].items() if k in
+                                ("ev", "op", "pid", "proc", "point", "p", "span", "child", "fullp", "val", "arg")}, sort_keys=True)))
+    if iv["drift_count"] > len(iv["drift"]):
+        vlib.log("NOTE: impl-trace model drift: %d scenarios in all (first %d shown)" % (iv["drift_count"], len(iv["drift"])))
+    for e in iv["errors"]:
+        vlib.log("NOTE: impl-trace: TLC could not finish a file (%s, %d scenarios from %s): %s" % (e["error"], e["scenarios"], e["first"], e["out"]))
+    if iv["scenarios"] > 0 and iv["accepted"] == 0:
+        ctx.note_inconclusive("impl-trace: none of the %d sampled real executions could be explained by the actions of SpanEnd.tla "
+                              "(shape %s): the implementation-shaped model has drifted from the code (%d drift, %d TLC errors)"
+                              % (iv["scenarios"], shape, iv["drift_count"], len(iv["errors"])))
     if not hooks:
         ctx.note_inconclusive("the tree has no span.end.* instrumentation points at all (hook infrastructure missing): "
                               "gate replay of TLC behaviours and directed schedules was skipped; only model checking, "
@@ -543,6 +766,7 @@ def run(ctx):
         "a scenario that does not finish within 20 s + gate timeouts is reported as a deadlock only if a goroutine is "
         "blocked in sync.Mutex.Lock inside sdk/trace; otherwise it is inconclusive",
         "attribute/event/link limits are not reached (default 128); limits are C04's subject",
+        "impl-trace validates a sample (scenarios with a provider-user goroutine are outside SpanEnd.tla); model drift is evidence only",
     ]
 
 
